@@ -110,19 +110,40 @@ func (r *RibEntry) pruneIfEmpty() {
 }
 
 func (r *RibEntry) updateNexthopsEnc() {
+	// Path-filler nodes have no name and no FIB entry of their own
+	if r.Name != nil {
+		r.updateOwnNexthopsEnc()
+	}
+
+	// Trigger update for all children for inheritance
+	for child := range r.children {
+		child.updateNexthopsEnc()
+	}
+}
+
+func (r *RibEntry) updateOwnNexthopsEnc() {
 	FibStrategyTable.ClearNextHopsEnc(r.Name)
+
+	// An entry without routes contributes nothing to the FIB
+	if len(r.routes) == 0 {
+		return
+	}
 
 	// All routes including parents if needed
 	routes := append([]*Route{}, r.routes...)
 
 	// Get all possible nexthops for parents that are inherited,
-	// unless we have the capture flag set
+	// unless we have the capture flag set. Inheritance stops at
+	// (and includes) the nearest ancestor with a capture route.
 	if !r.HasCaptureRoute() {
-		for entry := r; entry != nil; entry = entry.parent {
+		for entry := r.parent; entry != nil; entry = entry.parent {
 			for _, route := range entry.routes {
 				if route.HasChildInheritFlag() {
 					routes = append(routes, route)
 				}
+			}
+			if entry.HasCaptureRoute() {
+				break
 			}
 		}
 	}
@@ -139,11 +160,6 @@ func (r *RibEntry) updateNexthopsEnc() {
 	// Add "flattened" set of nexthops
 	for nexthop, cost := range minCostRoutes {
 		FibStrategyTable.InsertNextHopEnc(r.Name, nexthop, cost)
-	}
-
-	// Trigger update for all children for inheritance
-	for child := range r.children {
-		child.updateNexthopsEnc()
 	}
 }
 
